@@ -298,6 +298,16 @@ func scenarioC19(r *Run) {
 					r.Fired("dest.reuse.fail")
 				}
 				d.failures++
+				// refused for the bytes, not for the variable: a fresh
+				// destination refuses them too
+				fresh := d.dec.New()
+				var ferr error
+				r.Lib(func() { ferr = d.dec.Into(fresh, append([]byte{}, pristine...)) })
+				r.Check()
+				if ferr == nil {
+					r.Fail("decode-verdict-depends-on-destination/"+d.dec.Name, "%s.UnmarshalCBOR refused bytes in a previously used destination (decodes so far: %d ok, %d failed) that it accepts in a fresh one: %v\ninput: %s", d.dec.Name, d.decodes, d.failures-1, err, hexShort(pristine))
+					return
+				}
 				r.Check()
 				if after := Snapshot(d.val); after != before {
 					r.Fail("failed-decode-modifies-destination/"+d.dec.Name, "a failing %s.UnmarshalCBOR changed its destination\n%s\ninput: %s", d.dec.Name, diffSnapshot(before, after), hexShort(pristine))
